@@ -49,6 +49,7 @@ type Contract struct {
 	Props      []string
 	Requires   []*Clause
 	Ensures    []*Clause
+	Goals      []*Clause
 	Assigns    []string
 	HasAssigns bool
 	Pure       bool
@@ -213,6 +214,11 @@ func ParseContracts(src string) *ContractFile {
 		case "ensures":
 			c := &Clause{Kind: "ensures", Text: rest, Props: props, Line: ln, Ord: len(cur.Ensures) + 1}
 			cur.Ensures = append(cur.Ensures, c)
+			lastClause = c
+		case "goal":
+			// a postcondition that is checked when the function is verified but never assumed at call sites
+			c := &Clause{Kind: "goal", Text: rest, Props: props, Line: ln, Ord: len(cur.Goals) + 1}
+			cur.Goals = append(cur.Goals, c)
 			lastClause = c
 		case "assigns":
 			if curLoop != nil {
